@@ -232,7 +232,7 @@ Definition op_table : list (string * rd string) :=
                  sh_o sh_tp (rec_getitem md r i)]
             | _, _ => "ERR"
             end));
-    ("radd", md <- rMode ;; a <- rRecArgs ;; d <- rDur ;;
+    ("recadd", md <- rMode ;; a <- rRecArgs ;; d <- rDur ;;
        ret (match mk_rec md a with
             | Err => "ERR"
             | Ok r =>
